@@ -431,7 +431,7 @@ def importer_inspects_the_pushed_pawns_row(ctx, F):
         for e_ in eqs.values():
             players |= {t for t in hir.subterms(e_) if t[:2] == ("var", "current_player")}
     def player_valued(t):
-        return t[0] == "match" and any(b[0] == "variant" and str(b[1]).startswith("chess::Player::") for _, _, b in t[2]) and \
+        return isinstance(t, tuple) and len(t) >= 3 and t[0] == "match" and isinstance(t[2], tuple) and any(b[0] == "variant" and str(b[1]).startswith("chess::Player::") for _, _, b in t[2]) and \
             all((b[0] == "variant" and str(b[1]).startswith("chess::Player::")) or b[0] in ("ret", "call", "panic") for _, _, b in t[2])
     for _, r in rows:
         players |= {t for t in hir.subterms(r) if player_valued(t)}
